@@ -224,7 +224,7 @@ def run_check(prop, tier, seed):
     ncpu = os.cpu_count() or 4
     nshards = max(1, min(nshards, ncpu))
     budget = mod.BUDGET_S.get(tier, 120)  # logical soft budget handed to the shard
-    timeout = max(600, budget * 6)  # generous wall-clock watchdog: firing => inconclusive
+    timeout = max(900, budget * 4)  # generous wall-clock watchdog: firing => inconclusive
     tmp = tempfile.mkdtemp(prefix=f'gvmon_{prop}_')
     procs = []
     try:
